@@ -2,7 +2,10 @@ package main
 
 import (
 	"context"
+	"encoding/json"
 	"fmt"
+	"os"
+	"os/exec"
 	"sort"
 	"strconv"
 	"strings"
@@ -70,6 +73,8 @@ func c05timeouts(cs c05case) (conn, perOp time.Duration) {
 	switch cs.setting {
 	case "ref":
 		return c05Long, -1
+	case "clong": // a connection-wide timeout well above the slack, so that a wrong multiple of it shows
+		return base + 200*time.Millisecond, -1
 	case "pshort": // per-operation override shorter than the connection-wide value
 		return c05Long, base
 	case "plong": // per-operation override longer than the connection-wide value
@@ -695,7 +700,11 @@ func runC05(c *ctx) {
 			sd, _ := strconv.ParseUint(f[6], 10, 64)
 			cs := c05case{kind: f[1], variant: v, seg: sg, setting: f[4], k: k, seed: sd}
 			if cs.kind == "f12" {
-				c05f12(c, 400)
+				c05f12(c, 3000)
+				return
+			}
+			if cs.kind == "f12child" {
+				c05f12run(c, cs.k)
 				return
 			}
 			ref := c05reference(cs.kind, cs.variant)
@@ -729,10 +738,22 @@ func runC05(c *ctx) {
 					}
 				}
 			}
+			// a few stall points per phase under a timeout well above the slack
+			for i, st := range ref.starts {
+				end := ref.total
+				if i+1 < len(ref.starts) {
+					end = ref.starts[i+1]
+				}
+				for _, k := range []int{st, (st + end) / 2} {
+					if k < ref.total {
+						cases = append(cases, c05case{kind: kind, variant: v, seg: c.rng.Intn(3), setting: "clong", k: k, seed: c.rng.U64()})
+					}
+				}
+			}
 			c05check(c, ref, cases)
 		}
 	}
-	c05f12(c, c.n(160, 800))
+	c05f12(c, c.n(5000, 15000))
 }
 
 type c05ans struct {
@@ -805,7 +826,12 @@ func c05check(c *ctx, ref *c05ref, cases []c05case) {
 		var again []int
 		for i, cs := range cases {
 			o := obs[i]
-			if o.setupErr != "" || o.hang || o.panicMsg != "" || (o.class != "timeout" && o.class != "privilege") {
+			if o.hang && o.setupErr == "" {
+				// a process-wide stall (loaded host) makes the watchdog win; a real hang hangs again
+				again = append(again, i)
+				continue
+			}
+			if o.setupErr != "" || o.panicMsg != "" || (o.class != "timeout" && o.class != "privilege") {
 				continue
 			}
 			// too slow, or a complete exchange that ran out of time because the machine was slow
@@ -1021,12 +1047,63 @@ func c05getTimeout(c *ctx) {
 // attempts; with the repaired code no attempt can fail.
 func c05f12(c *ctx, n int) {
 	res := c.res
+	// child process: a library goroutine that panics (two consumers racing on the queue) would
+	// take the whole harness down. The window is hit when the spinning reader is parked by the
+	// scheduler between its ctx.Done() test and its Channel.Read; measured rate on this machine
+	// 0.3-4 % per attempt whatever GOMAXPROCS, hence thousands of cheap attempts.
+	tmp, err := os.CreateTemp("", "verif-c05-f12-*.json")
+	if err != nil {
+		res.Fail("machinery", "c05case f12 0 0 conn 0 0", "temp file: "+err.Error(), "child")
+		return
+	}
+	tmp.Close()
+	defer os.Remove(tmp.Name())
+	cmd := exec.Command(os.Args[0], "C05", "-tier", c.tier, "-seed", strconv.FormatUint(c.seed, 10), "-driver", c.driver,
+		"-out", tmp.Name(), "-replay", fmt.Sprintf("c05case f12child 0 0 conn %d 0", n))
+	cmd.Env = append(os.Environ(), c05f12env()...)
+	out, runErr := cmd.CombinedOutput()
+	var child vlib.Result
+	b, rerr := os.ReadFile(tmp.Name())
+	if rerr == nil && len(b) > 0 {
+		rerr = json.Unmarshal(b, &child)
+	}
+	if runErr != nil || rerr != nil || len(b) == 0 {
+		text := string(out)
+		head := text
+		if i := strings.Index(text, "panic:"); i >= 0 {
+			head = text[i:]
+		}
+		if len(head) > 900 {
+			head = head[:900]
+		}
+		sig := "child-crashed:cb-after-return"
+		if strings.Contains(text, "panic:") {
+			sig = "panic:library-goroutine:after-return:cb"
+		}
+		res.Case("f12/child", true)
+		res.InDomain++
+		res.Fail("oracle", "c05case f12 0 0 conn 0 0", "the process running SendWithCallbacks-timeout followed by the next command died (a timed-out call's reader goroutine still consuming the queue next to the following operation): "+head, sig)
+		return
+	}
+	res.Evaluations += child.Evaluations
+	res.InDomain += child.InDomain
+	res.Distinct += child.Distinct
+	for k, v := range child.Distribution {
+		res.Distribution[k] += v
+	}
+	res.Findings = append(res.Findings, child.Findings...)
+	res.Notes = append(res.Notes, child.Notes...)
+}
+
+// c05f12run is the probe itself (runs in the child process).
+func c05f12run(c *ctx, n int) {
+	res := c.res
 	type out struct {
 		sig, detail string
 	}
 	outs := make([]out, n)
 	var wg sync.WaitGroup
-	sem := make(chan struct{}, 6)
+	sem := make(chan struct{}, c05f12conc())
 	for i := 0; i < n; i++ {
 		wg.Add(1)
 		sem <- struct{}{}
@@ -1035,7 +1112,7 @@ func c05f12(c *ctx, n int) {
 			defer func() { <-sem }()
 			dev := c05cli("priv")
 			d, err := generic.NewDriver("h", options.WithCustomTransport(dev), options.WithAuthBypass(),
-				options.WithTimeoutOps(400*time.Millisecond), options.WithReadDelay(c05RD))
+				options.WithTimeoutOps(3*time.Second), options.WithReadDelay(c05RD))
 			if err != nil {
 				outs[i] = out{"setup-failed:f12", err.Error()}
 				return
@@ -1096,4 +1173,18 @@ func c05f12(c *ctx, n int) {
 		}
 	}
 	res.Note("callbacks after-return probe: %d attempts, %d failed", n, bad)
+}
+
+func c05f12conc() int {
+	if v, err := strconv.Atoi(os.Getenv("C05_F12_CONC")); err == nil && v > 0 {
+		return v
+	}
+	return 6
+}
+
+func c05f12env() []string {
+	if os.Getenv("C05_F12_CONC") != "" {
+		return nil
+	}
+	return []string{"C05_F12_CONC=64"}
 }
